@@ -525,6 +525,23 @@ func init() {
 				if _, err := c.Compile("b.mtail", strings.NewReader(b)); err != nil {
 					continue // only valid programs are mutated
 				}
+				// a declaration nobody uses, placed in the very scope a decorator hands over with `next'
+				// (just before it and just after it): it is unused there as anywhere else
+				if ls := strings.Split(b, "\n"); true {
+					for i, l := range ls {
+						if strings.TrimSpace(l) == "next" {
+							ind := l[:len(l)-len(strings.TrimLeft(l, " \t"))]
+							for _, at := range []int{i, i + 1} {
+								var m []string
+								m = append(m, ls[:at]...)
+								m = append(m, ind+"counter zz_unused")
+								m = append(m, ls[at:]...)
+								g.emit(c24Case("unused:var", strings.Join(m, "\n"))...)
+							}
+							break
+						}
+					}
+				}
 				for k := 0; k < nMut; k++ {
 					m, cls := mutate(g.r, b)
 					if m == "" {
